@@ -13,35 +13,47 @@
 (*   TamperHeader     a byte of the main header's store is altered in the   *)
 (*                    written file (the package still parses)               *)
 (*   TamperPayload    a payload byte is altered in the written file         *)
+(*   TamperRecDigest  a character of the header SHA-256 *recorded in the    *)
+(*                    signature header* is altered in the written file      *)
+(*   TamperSigBlob    a character of the OpenPGP signature stored in the    *)
+(*                    signature header is altered (signed packages only)    *)
 (*                                                                         *)
 (* hdrDirty: the main header differs from the one the recorded header       *)
 (* digest (and signature) was computed over.  payDirty: the payload differs *)
 (* from the one whose digest the main header records; no operation of the   *)
 (* library repairs that, because it never rewrites the main header.         *)
+(* recDirty / sigDirty: the signature header itself was altered - its       *)
+(* recorded header digest, or the signature packet.  Sign and Clear rebuild *)
+(* the signature header from scratch, so they (and only they) repair both.  *)
 (***************************************************************************)
 EXTENDS Naturals, Sequences
 
 CONSTANT Keys
-VARIABLES signer, hdrDirty, payDirty, steps
-rvars == <<signer, hdrDirty, payDirty, steps>>
+VARIABLES signer, hdrDirty, payDirty, recDirty, sigDirty, steps
+rvars == <<signer, hdrDirty, payDirty, recDirty, sigDirty, steps>>
 
-RInit == signer = "none" /\ hdrDirty = FALSE /\ payDirty = FALSE /\ steps = 0
+RInit == signer = "none" /\ hdrDirty = FALSE /\ payDirty = FALSE /\ recDirty = FALSE /\ sigDirty = FALSE /\ steps = 0
 
-Sign(k)       == signer' = k /\ hdrDirty' = FALSE /\ UNCHANGED payDirty /\ steps' = steps + 1
-Clear         == signer' = "none" /\ hdrDirty' = FALSE /\ UNCHANGED payDirty /\ steps' = steps + 1
-SignFail      == UNCHANGED <<signer, hdrDirty, payDirty>> /\ steps' = steps + 1
-Reparse       == UNCHANGED <<signer, hdrDirty, payDirty>> /\ steps' = steps + 1
-TamperHeader  == hdrDirty' = TRUE /\ UNCHANGED <<signer, payDirty>> /\ steps' = steps + 1
-TamperPayload == payDirty' = TRUE /\ UNCHANGED <<signer, hdrDirty>> /\ steps' = steps + 1
+Tick == steps' = steps + 1
+Sign(k)         == signer' = k /\ hdrDirty' = FALSE /\ recDirty' = FALSE /\ sigDirty' = FALSE /\ UNCHANGED payDirty /\ Tick
+Clear           == signer' = "none" /\ hdrDirty' = FALSE /\ recDirty' = FALSE /\ sigDirty' = FALSE /\ UNCHANGED payDirty /\ Tick
+SignFail        == UNCHANGED <<signer, hdrDirty, payDirty, recDirty, sigDirty>> /\ Tick
+Reparse         == UNCHANGED <<signer, hdrDirty, payDirty, recDirty, sigDirty>> /\ Tick
+TamperHeader    == hdrDirty' = TRUE /\ UNCHANGED <<signer, payDirty, recDirty, sigDirty>> /\ Tick
+TamperPayload   == payDirty' = TRUE /\ UNCHANGED <<signer, hdrDirty, recDirty, sigDirty>> /\ Tick
+TamperRecDigest == recDirty' = TRUE /\ UNCHANGED <<signer, hdrDirty, payDirty, sigDirty>> /\ Tick
+TamperSigBlob   == signer # "none" /\ sigDirty' = TRUE /\ UNCHANGED <<signer, hdrDirty, payDirty, recDirty>> /\ Tick
 
 \* what every observation must report in a state
-DigestsOk      == ~hdrDirty /\ ~payDirty
-Verifies(k)    == signer = k /\ DigestsOk
+DigestsOk      == ~hdrDirty /\ ~payDirty /\ ~recDirty
+Verifies(k)    == signer = k /\ DigestsOk /\ ~sigDirty
 \* the header digest recorded in the signature header is the digest of the header as it is now
-HdrDigestTrue  == ~hdrDirty
+HdrDigestTrue  == ~hdrDirty /\ ~recDirty
 Obs == [digests_ok |-> DigestsOk, verifies |-> [k \in Keys |-> Verifies(k)], hdr_digest_true |-> HdrDigestTrue]
 
 \* consequences (checked by MC_Rpm on all histories)
-NoVerifyWhenTampered == (hdrDirty \/ payDirty) => \A k \in Keys : ~Verifies(k)
+NoVerifyWhenTampered == (hdrDirty \/ payDirty \/ recDirty \/ sigDirty) => \A k \in Keys : ~Verifies(k)
+\* a damaged signature packet exists only on a package that carries a signature
+SigDirtyOnlySigned == sigDirty => signer # "none"
 AtMostOneKey == \A j, k \in Keys : Verifies(j) /\ Verifies(k) => j = k
 =============================================================================
